@@ -34,7 +34,14 @@ def efunTags (n : Int) : List String :=
 def opTags (w : World) : Op → List String
   | .shb t n => if !w.alive t then ["op.target-gone"] else efunTags n ++ shbTags w t (NV.Gen.C11.efunSat n)
   | .q t => if !w.alive t then ["op.target-gone"] else [if hasOb t w.hbs then "qhb.on-list" else "qhb.flag-off->0"]
-  | .dest t => if !w.alive t || t < 2 then ["op.target-gone"] else (shbTags w t 0).map ("destruct:" ++ ·)
+  | .dest t =>
+    if !w.alive t || t < 2 then ["op.target-gone"]
+    else
+      (if (itemsOf w t).isEmpty then ["destruct.no-inventory"] else ["destruct.inventory-hooks"]) ++
+        (shbTags (hooksPhase w t).1 t 0).map ("destruct:" ++ ·) ++
+        (if hasOb t w.hbs = false && hasOb t (hooksPhase w t).1.hbs then ["destruct.hook-enabled-the-dying-object"] else []) ++
+        (if hasOb t w.hbs && !hasOb t (hooksPhase w t).1.hbs then ["destruct.hook-disabled-the-dying-object"] else [])
+  | .take _ => ["take"]
   | .clone new kind n =>
     if w.known.contains new then ["op.clone-dup"]
     else
@@ -124,8 +131,8 @@ def runCmdsT (sc : Scripts) (w : World) : List Cmd → World × List Ev × List 
       | (w2, evs2, tg2) => (w2, evs ++ evs2, tg ++ tg2)
 
 /-- branch tags of a run; a run whose events differ from the model's is reported as diverged -/
-def branchTags (sc : Scripts) (cmds : List Cmd) : List String :=
-  match runCmdsT sc {} cmds with
-  | (_, evs, tg) => if evs == events sc cmds then tg else ["INSTRUMENTATION-DIVERGED"]
+def branchTags (sc : Scripts) (cmds : List Cmd) (hk : Nat → List Op := fun _ => []) : List String :=
+  match runCmdsT sc { hooks := hk } cmds with
+  | (_, evs, tg) => if evs == events sc cmds hk then tg else ["INSTRUMENTATION-DIVERGED"]
 
 end NV.C11
